@@ -52,6 +52,7 @@ class Cfg:
         self.max_size = rng.choice([2, 3, 3, 4, 5])
         self.n_ops = rng.randint(150, 300) if long else rng.randint(5, 40)
         self.invalid_rate = rng.choice([0.0, 0.1, 0.15])
+        self.use_constructor = False  # start from a constructor call with edge lists / metadata (C01-C04 set this)
         self.avoid = set()  # op families to avoid (used while a finding is open)
 
     def describe(self):
@@ -356,6 +357,90 @@ def op_repr(op):
 
 
 # -------------------------------------------------------------------------------------
+# constructor path: the container is born from edge_list / weights / metadata arguments
+# -------------------------------------------------------------------------------------
+def construct_initial(ctx, rng, cfg, model, tag):
+    """Builds the container through its constructor and checks the observation against the model
+    state reached by the equivalent call sequence (add_node per node_metadata entry, then add_edges)."""
+    import hypergraphx as hgx
+
+    kind = cfg.kind
+    cls = {"H": hgx.Hypergraph, "D": hgx.DirectedHypergraph, "T": hgx.TemporalHypergraph, "M": hgx.MultiplexHypergraph}[kind]
+    S0 = State(cfg.weighted)
+    node_md = {}
+    for n in rng.sample(cfg.labels, rng.randint(0, min(3, len(cfg.labels)))):
+        node_md[n] = rand_md(rng) or {"k": 1}
+    items, seen = [], set()
+    for _ in range(rng.randint(0, 5)):
+        key = rand_key(rng, cfg, S0, fresh_only=True)
+        if key is None or key in seen:
+            continue
+        seen.add(key)
+        items.append([key, rng.choice(WEIGHTS) if cfg.weighted else None, rand_md(rng)])
+    use_w = cfg.weighted and bool(items) and rng.random() < 0.7
+    if not use_w:
+        for it in items:
+            it[1] = None
+    use_md = bool(items) and rng.random() < 0.5
+    if not use_md:
+        for it in items:
+            it[2] = None
+    hgmd = rng.choice([None, None, {"name": "g"}, {"src": [1, 2], "n": None}])
+    # model: the documented equivalent call sequence
+    states = [S0]
+    for n, md in node_md.items():
+        states = [T2 for T in states for T2 in model.outcome(T, ("add_node", {"n": n, "md": copy.deepcopy(md)})).states][:32]
+    if items:
+        op = ("add_edges", {"items": [tuple(it) for it in items], "use_w": use_w, "use_md": use_md, "may_refuse": False})
+        states = [T2 for T in states for T2 in model.outcome(T, op).states][:64]
+    largs = [lib_args(kind, it[0], rng) for it in items]
+    kw = {"weighted": cfg.weighted}
+    embedded = kind in ("T", "M") and rng.random() < 0.5
+    if items or rng.random() < 0.5:
+        if kind in ("H", "D"):
+            kw["edge_list"] = [x[0] for x in largs]
+        elif kind == "T":
+            if embedded:
+                kw["edge_list"] = [(x[1], x[0]) for x in largs]
+            else:
+                kw["edge_list"], kw["time_list"] = [x[0] for x in largs], [x[1] for x in largs]
+        else:
+            if embedded:
+                kw["edge_list"] = [(x[0], x[1]) for x in largs]
+            else:
+                kw["edge_list"], kw["edge_layer"] = [x[0] for x in largs], [x[1] for x in largs]
+    if use_w:
+        kw["weights"] = [it[1] for it in items]
+    if use_md:
+        kw["edge_metadata"] = [copy.deepcopy(it[2]) if it[2] is not None else {} for it in items]
+    if node_md:
+        kw["node_metadata"] = copy.deepcopy(node_md)
+    if hgmd is not None:
+        kw["hypergraph_metadata"] = copy.deepcopy(hgmd)
+
+    def wit():
+        return {"cfg": cfg.describe(), "constructor_kwargs": {k: repr(v)[:300] for k, v in kw.items()}}
+
+    ctx.event("op:constructor")
+    try:
+        h = cls(**kw)
+    except Exception as e:
+        ctx.violation(f"{tag}:constructor:raised:{type(e).__name__}", dict(wit(), error=repr(e)), abort=True)
+    P = []
+    S = observe(h, P)
+    ok = any(not R.diff(S) for R in states) and not P
+    if not ok:
+        best = min(states, key=lambda R: len(R.diff(S)))
+        ctx.check(f"{tag}:transition", False, f"{tag}:constructor:" + ",".join(best.diff(S) + P), lambda: dict(wit(), observed=S.describe(), expected=best.describe()), abort=True)
+    else:
+        ctx.tick(f"{tag}:transition")
+    exp_hgmd = dict(hgmd or {})
+    exp_hgmd.update({"weighted": cfg.weighted, "type": cls.__name__})
+    ctx.check(f"{tag}:transition", S.hgmd == exp_hgmd, f"{tag}:constructor:hypergraph-metadata", lambda: dict(wit(), observed=S.hgmd, expected=exp_hgmd), abort=True)
+    return h, S
+
+
+# -------------------------------------------------------------------------------------
 # running a history under monitoring
 # -------------------------------------------------------------------------------------
 def run_history(ctx, rng, cfg, ops=None, battery_every=1, after_event=None, tag=None, raw=None):
@@ -364,8 +449,11 @@ def run_history(ctx, rng, cfg, ops=None, battery_every=1, after_event=None, tag=
     kind = cfg.kind
     tag = tag or kind
     model = Model(kind)
-    h = new_container(kind, cfg.weighted)
-    S = observe(h)
+    if ops is None and getattr(cfg, "use_constructor", False):
+        h, S = construct_initial(ctx, rng, cfg, model, tag)
+    else:
+        h = new_container(kind, cfg.weighted)
+        S = observe(h)
     live = [[h, S]]
     trace = []
     raw_ops = [] if raw is None else raw
